@@ -40,7 +40,7 @@ type srReader struct {
 }
 
 func (r *srReader) AssignSplits(splits []*workerpb.SourceSplit) error { return nil }
-func (r *srReader) Checkpoint() [][]byte                               { return nil }
+func (r *srReader) Checkpoint() [][]byte                              { return nil }
 func (r *srReader) ReadEvents() ([][]byte, error) {
 	r.mu.Lock()
 	defer r.mu.Unlock()
